@@ -418,9 +418,9 @@ func (c *checker) expr1(e *Expr) *Type {
 		return c.lookup(e.Name)
 	case EBin:
 		switch {
-		case e.Op == "+" || e.Op == "-" || e.Op == "*":
-			if c.opts.Tiny && e.Op == "*" {
-				c.fail("tiny: no *")
+		case e.Op == "+" || e.Op == "-" || e.Op == "*" || e.Op == "/":
+			if c.opts.Tiny && (e.Op == "*" || e.Op == "/") {
+				c.fail("tiny: no %s", e.Op)
 			}
 			c.want(e.Args[0], tInt, e.Op)
 			c.want(e.Args[1], tInt, e.Op)
